@@ -146,6 +146,10 @@ class FnSpec:
         self.loop_iter = {}
         self.after_loops = {}
         self.before_loops = {}
+        self.insert_after, self.insert_before = [], []
+        self.is_slice = False
+        self.from_anchor = self.to_anchor = self.must_precede = None
+        self.prologue, self.epilogue = [], []
         self.loop_starts = {}
         self.assume = False
         self.header_files = []
@@ -193,20 +197,21 @@ def parse_template(path):
                 i += 1
             parts.append(("item", (file, p, pre, rewrites), path))
             i += 1
-        elif s.startswith("//@@ fn "):
+        elif s.startswith("//@@ fn ") or s.startswith("//@@ slice "):
             flush()
-            m = re.match(r"//@@ fn\s+([\w.\-]+)\s*=\s*(.*)$", s)
+            m = re.match(r"//@@ (?:fn|slice)\s+([\w.\-]+)\s*=\s*(.*)$", s)
             if not m:
                 raise ExtractError("bad fn directive: " + s)
             file, *p = [x.strip() for x in m.group(2).split(" :: ")]
             fs = FnSpec(m.group(1), file, p)
+            fs.is_slice = s.startswith("//@@ slice ")
             i += 1
             target = None
             while True:
                 if i >= len(lines):
                     raise ExtractError("unterminated //@@ fn %s" % fs.id)
                 t = lines[i].strip()
-                if t == "//@@ endfn":
+                if t == "//@@ endfn" or t == "//@@ endslice":
                     break
                 if t.startswith("//@@ "):
                     d = t[5:]
@@ -240,6 +245,12 @@ def parse_template(path):
                         target = fs.before_loops.setdefault(int(d.split()[1]), [])
                     elif d.startswith("loop-start "):
                         target = fs.loop_starts.setdefault(int(d.split()[1]), [])
+                    elif d.startswith("insert-after "):
+                        target = []
+                        fs.insert_after.append((d[len("insert-after "):].strip()[1:-1], target))
+                    elif d.startswith("insert-before "):
+                        target = []
+                        fs.insert_before.append((d[len("insert-before "):].strip()[1:-1], target))
                     elif d.startswith("before "):
                         target = []
                         fs.before.append((d[len("before "):].strip().strip('"'), target))
@@ -248,6 +259,16 @@ def parse_template(path):
                         fs.after.append((d[len("after "):].strip().strip('"'), target))
                     elif d == "body-start":
                         target = fs.body_start
+                    elif d.startswith("from "):
+                        fs.from_anchor = d[5:].strip().strip('"'); target = None
+                    elif d.startswith("to "):
+                        fs.to_anchor = d[3:].strip().strip('"'); target = None
+                    elif d.startswith("must-precede "):
+                        fs.must_precede = d[len("must-precede "):].strip().strip('"'); target = None
+                    elif d == "prologue":
+                        target = fs.prologue
+                    elif d == "epilogue":
+                        target = fs.epilogue
                     else:
                         raise ExtractError("unknown directive in fn %s: %s" % (fs.id, t))
                 else:
@@ -306,7 +327,207 @@ def _line_of(src, off):
     return src.count("\n", 0, off) + 1
 
 
+def _process_body(fs, body, src, b0, applied, out, tail_check=True):
+    """Inject the directives of `fs` into `body` (text starting at offset b0 of `src`) and append GenLines to `out`."""
+    # ---- body: compute insertion points as byte offsets into `body`
+    btoks = lex(body)
+    inserts = []  # (offset, order, lines, mode)  mode: 'line-before' | 'split'
+    # loops
+    loop_idx = 0
+    k = 0
+    loop_positions = []
+    while k < len(btoks):
+        t = btoks[k]
+        if t.kind == "ident" and t.text in ("loop", "while", "for"):
+            # `for` in `impl X for Y` / HRTB cannot occur inside a body except nested items; accept.
+            depth = 0
+            j = k + 1
+            brace = None
+            while j < len(btoks):
+                u = btoks[j]
+                if u.kind == "punct" and u.text in "([":
+                    j = match_close(btoks, j)
+                elif u.kind == "punct" and u.text == "{":
+                    brace = j
+                    break
+                elif u.kind == "punct" and u.text == ";":
+                    break
+                j += 1
+            if brace is not None:
+                loop_idx += 1
+                in_end = None
+                if t.text == "for":
+                    jj = k + 1
+                    while jj < brace:
+                        if btoks[jj].kind == "punct" and btoks[jj].text in "([":
+                            jj = match_close(btoks, jj)
+                        elif btoks[jj].kind == "ident" and btoks[jj].text == "in":
+                            in_end = btoks[jj].end
+                            break
+                        jj += 1
+                loop_positions.append((loop_idx, btoks[brace].start, t.text, in_end, btoks[match_close(btoks, brace)].end, t.start))
+        k += 1
+    for n, lines in fs.loops.items():
+        pos = [(p, ie) for (i_, p, _, ie, _e, _s) in loop_positions if i_ == n]
+        if not pos:
+            raise ExtractError("lost anchor: %s has no loop #%d (found %d)" % (fs.id, n, len(loop_positions)))
+        inserts.append((pos[0][0], "split", lines))
+        if n in fs.loop_iter:
+            if pos[0][1] is None:
+                raise ExtractError("lost anchor: loop #%d of %s is not a `for .. in` loop" % (n, fs.id))
+            # ghost name of the iterator (Verus `for x in it: expr`): a pure insertion on its own line
+            inserts.append((pos[0][1], "split", [" " + fs.loop_iter[n] + ":"]))
+    for n, lines in fs.after_loops.items():
+        pos = [e for (i_, _p, _t, _ie, e, _s) in loop_positions if i_ == n]
+        if not pos:
+            raise ExtractError("lost anchor: %s has no loop #%d" % (fs.id, n))
+        inserts.append((pos[0], "split", lines))
+    for n, lines in fs.before_loops.items():
+        pos = [s_ for (i_, _p, _t, _ie, _e, s_) in loop_positions if i_ == n]
+        if not pos:
+            raise ExtractError("lost anchor: %s has no loop #%d" % (fs.id, n))
+        inserts.append((pos[0], "split", lines))
+    for n, lines in fs.loop_starts.items():
+        pos = [p_ + 1 for (i_, p_, _t, _ie, _e, _s) in loop_positions if i_ == n]
+        if not pos:
+            raise ExtractError("lost anchor: %s has no loop #%d" % (fs.id, n))
+        inserts.append((pos[0], "split", lines))
+    # contract text inserted in the middle of a line (closure signatures): after / before a unique piece of source text
+    for kind, lst in (("after", fs.insert_after), ("before", fs.insert_before)):
+        for anchor, lines in lst:
+            cnt = body.count(anchor)
+            if cnt != 1:
+                raise ExtractError("lost anchor: %s: text %r occurs %d times" % (fs.id, anchor, cnt))
+            k = body.index(anchor)
+            inserts.append((k + len(anchor) if kind == "after" else k, "split", lines))
+    # body-start
+    if fs.body_start:
+        inserts.append((1, "after-brace", fs.body_start))
+    # textual anchors
+    blines = body.split("\n")
+    offs = []
+    o = 0
+    for ln in blines:
+        offs.append(o)
+        o += len(ln) + 1
+    for kind, lst in (("before", fs.before), ("after", fs.after)):
+        for anchor, lines in lst:
+            hits = [i_ for i_, ln in enumerate(blines) if _norm(anchor) in _norm(ln)]
+            if len(hits) != 1:
+                raise ExtractError("lost anchor: %s: %r matches %d body lines" % (fs.id, anchor, len(hits)))
+            i_ = hits[0]
+            if kind == "before":
+                inserts.append((offs[i_], "line", lines))
+            else:
+                inserts.append((offs[i_] + len(blines[i_]) + 1, "line", lines))
+    # apply rewrites to body segments between insert points (offsets refer to the unrewritten body)
+    inserts.sort(key=lambda x: x[0])
+    cuts = [0] + [p for p, _, _ in inserts] + [len(body)]
+    segs = [body[cuts[i]:cuts[i + 1]] for i in range(len(cuts) - 1)]
+    for rw in fs.rewrites:
+        total = 0
+        for si in range(len(segs)):
+            segs[si], n = _apply_rewrite(rw, segs[si])
+            total += n
+        if total:
+            if rw == "break_value":
+                _check_tail_loop(body)
+            applied.append((rw, "body", "%d site(s)" % total))
+    # emit
+    body_first_line = _line_of(src, b0)
+
+    def emit_src(text, start_off):
+        # text is a piece of the body starting at original offset start_off
+        ln0 = body_first_line + body.count("\n", 0, start_off)
+        pieces = text.split("\n")
+        for k_, p in enumerate(pieces):
+            out.append(GenLine(p, "src", fs.id, src_file=fs.file, src_line=ln0 + k_))
+
+    # we need to emit segs with injected lines in between; a 'split' insert breaks a line in two
+    for si, seg in enumerate(segs):
+        if si > 0:
+            _, mode, lines = inserts[si - 1]
+            out.extend(_mk_injected(lines, fs.id))
+        if seg.endswith("\n") and si + 1 < len(segs) and inserts[si][1] == "line":
+            seg = seg[:-1]
+        emit_src(seg, cuts[si])
+
+
+def build_slice(fs, canary=False):
+    """A statement slice of a function body: the statements from the line containing `from` through the line containing
+    `to`, copied verbatim between a synthetic prologue (signature + contract + `{`) and epilogue (tail + `}`) that are
+    template text.  Checked syntactically: both anchors unique and at the top nesting level of the body, the slice is
+    bracket-balanced, and `must-precede` does not occur in the body before the end of the slice."""
+    fpath = os.path.join(REPO, fs.file)
+    if not os.path.exists(fpath):
+        raise ExtractError("lost anchor: %s does not exist" % fs.file)
+    src = _read(fpath)
+    try:
+        toks, item = find_path(src, fs.path)
+    except (LookupError, LexError) as e:
+        raise ExtractError("lost anchor %s :: %s: %s" % (fs.file, " :: ".join(fs.path), e))
+    if item.body_open is None:
+        raise ExtractError("%s has no body" % fs.id)
+    b0 = toks[item.body_open].start
+    b1 = toks[item.body_close].end
+    body = src[b0:b1]
+    blines = body.split("\n")
+    offs, o = [], 0
+    for ln in blines:
+        offs.append(o)
+        o += len(ln) + 1
+    def find(anchor):
+        hits = [i for i, ln in enumerate(blines) if _norm(anchor) in _norm(ln)]
+        if len(hits) != 1:
+            raise ExtractError("lost anchor: slice %s: %r matches %d body lines" % (fs.id, anchor, len(hits)))
+        return hits[0]
+    i0, i1 = find(fs.from_anchor), find(fs.to_anchor)
+    if i1 < i0:
+        raise ExtractError("slice %s: `to` precedes `from`" % fs.id)
+    a, b = offs[i0], offs[i1] + len(blines[i1])
+    text = body[a:b]
+    # nesting level and balance
+    depth = 0
+    for t in lex(body[:a]):
+        if t.kind == "punct" and t.text in "([{":
+            depth += 1
+        elif t.kind == "punct" and t.text in ")]}":
+            depth -= 1
+    if depth != 1:
+        raise ExtractError("slice %s does not start at the top level of the function body" % fs.id)
+    d2 = 0
+    for t in lex(text):
+        if t.kind == "punct" and t.text in "([{":
+            d2 += 1
+        elif t.kind == "punct" and t.text in ")]}":
+            d2 -= 1
+            if d2 < 0:
+                raise ExtractError("slice %s is not bracket-balanced" % fs.id)
+    if d2 != 0:
+        raise ExtractError("slice %s is not bracket-balanced" % fs.id)
+    if fs.must_precede and _norm(fs.must_precede) in _norm(body[:b]):
+        raise ExtractError("slice %s: %r occurs before the end of the slice" % (fs.id, fs.must_precede))
+    if fs.must_precede and _norm(fs.must_precede) not in _norm(body[b:]):
+        raise ExtractError("lost anchor: slice %s: %r no longer follows the slice" % (fs.id, fs.must_precede))
+    applied = [("slice", "%s .. %s" % (fs.from_anchor, fs.to_anchor), "statements wrapped in a synthetic signature and tail (template text)")]
+    out = []
+    pro = list(fs.prologue)
+    if canary and (canary is True or fs.id in canary):
+        # the contract lines of the prologue precede its final `{`
+        k = max(i for i, ln in enumerate(pro) if ln.strip() == "{")
+        pro = _add_canary(pro[:k], fs.id) + pro[k:]
+    out.extend(_mk_injected(pro, fs.id))
+    _process_body(fs, text, src, b0 + a, applied, out)
+    out.extend(_mk_injected(fs.epilogue, fs.id))
+    info = _info(fs, src, b0 + a, b0 + b, applied, assumed=False, toks_slice=text)
+    info["slice"] = True
+    info["dropped"] = "everything of the function outside the slice (see DESIGN)"
+    return out, info
+
+
 def build_fn(fs, canary=False):
+    if getattr(fs, "is_slice", False):
+        return build_slice(fs, canary)
     """Return (list[GenLine], info dict) for one //@@ fn block."""
     fpath = os.path.join(REPO, fs.file)
     if not os.path.exists(fpath):
@@ -395,120 +616,7 @@ def build_fn(fs, canary=False):
         info = _info(fs, src, h0, b1, applied, assumed=True, toks_slice=src[h0:b1])
         return out, info
 
-    # ---- body: compute insertion points as byte offsets into `body`
-    btoks = lex(body)
-    inserts = []  # (offset, order, lines, mode)  mode: 'line-before' | 'split'
-    # loops
-    loop_idx = 0
-    k = 0
-    loop_positions = []
-    while k < len(btoks):
-        t = btoks[k]
-        if t.kind == "ident" and t.text in ("loop", "while", "for"):
-            # `for` in `impl X for Y` / HRTB cannot occur inside a body except nested items; accept.
-            depth = 0
-            j = k + 1
-            brace = None
-            while j < len(btoks):
-                u = btoks[j]
-                if u.kind == "punct" and u.text in "([":
-                    j = match_close(btoks, j)
-                elif u.kind == "punct" and u.text == "{":
-                    brace = j
-                    break
-                elif u.kind == "punct" and u.text == ";":
-                    break
-                j += 1
-            if brace is not None:
-                loop_idx += 1
-                in_end = None
-                if t.text == "for":
-                    jj = k + 1
-                    while jj < brace:
-                        if btoks[jj].kind == "punct" and btoks[jj].text in "([":
-                            jj = match_close(btoks, jj)
-                        elif btoks[jj].kind == "ident" and btoks[jj].text == "in":
-                            in_end = btoks[jj].end
-                            break
-                        jj += 1
-                loop_positions.append((loop_idx, btoks[brace].start, t.text, in_end, btoks[match_close(btoks, brace)].end, t.start))
-        k += 1
-    for n, lines in fs.loops.items():
-        pos = [(p, ie) for (i_, p, _, ie, _e, _s) in loop_positions if i_ == n]
-        if not pos:
-            raise ExtractError("lost anchor: %s has no loop #%d (found %d)" % (fs.id, n, len(loop_positions)))
-        inserts.append((pos[0][0], "split", lines))
-        if n in fs.loop_iter:
-            if pos[0][1] is None:
-                raise ExtractError("lost anchor: loop #%d of %s is not a `for .. in` loop" % (n, fs.id))
-            # ghost name of the iterator (Verus `for x in it: expr`): a pure insertion on its own line
-            inserts.append((pos[0][1], "split", [" " + fs.loop_iter[n] + ":"]))
-    for n, lines in fs.after_loops.items():
-        pos = [e for (i_, _p, _t, _ie, e, _s) in loop_positions if i_ == n]
-        if not pos:
-            raise ExtractError("lost anchor: %s has no loop #%d" % (fs.id, n))
-        inserts.append((pos[0], "split", lines))
-    for n, lines in fs.before_loops.items():
-        pos = [s_ for (i_, _p, _t, _ie, _e, s_) in loop_positions if i_ == n]
-        if not pos:
-            raise ExtractError("lost anchor: %s has no loop #%d" % (fs.id, n))
-        inserts.append((pos[0], "split", lines))
-    for n, lines in fs.loop_starts.items():
-        pos = [p_ + 1 for (i_, p_, _t, _ie, _e, _s) in loop_positions if i_ == n]
-        if not pos:
-            raise ExtractError("lost anchor: %s has no loop #%d" % (fs.id, n))
-        inserts.append((pos[0], "split", lines))
-    # body-start
-    if fs.body_start:
-        inserts.append((1, "after-brace", fs.body_start))
-    # textual anchors
-    blines = body.split("\n")
-    offs = []
-    o = 0
-    for ln in blines:
-        offs.append(o)
-        o += len(ln) + 1
-    for kind, lst in (("before", fs.before), ("after", fs.after)):
-        for anchor, lines in lst:
-            hits = [i_ for i_, ln in enumerate(blines) if _norm(anchor) in _norm(ln)]
-            if len(hits) != 1:
-                raise ExtractError("lost anchor: %s: %r matches %d body lines" % (fs.id, anchor, len(hits)))
-            i_ = hits[0]
-            if kind == "before":
-                inserts.append((offs[i_], "line", lines))
-            else:
-                inserts.append((offs[i_] + len(blines[i_]) + 1, "line", lines))
-    # apply rewrites to body segments between insert points (offsets refer to the unrewritten body)
-    inserts.sort(key=lambda x: x[0])
-    cuts = [0] + [p for p, _, _ in inserts] + [len(body)]
-    segs = [body[cuts[i]:cuts[i + 1]] for i in range(len(cuts) - 1)]
-    for rw in fs.rewrites:
-        total = 0
-        for si in range(len(segs)):
-            segs[si], n = _apply_rewrite(rw, segs[si])
-            total += n
-        if total:
-            if rw == "break_value":
-                _check_tail_loop(body)
-            applied.append((rw, "body", "%d site(s)" % total))
-    # emit
-    body_first_line = _line_of(src, b0)
-
-    def emit_src(text, start_off):
-        # text is a piece of the body starting at original offset start_off
-        ln0 = body_first_line + body.count("\n", 0, start_off)
-        pieces = text.split("\n")
-        for k_, p in enumerate(pieces):
-            out.append(GenLine(p, "src", fs.id, src_file=fs.file, src_line=ln0 + k_))
-
-    # we need to emit segs with injected lines in between; a 'split' insert breaks a line in two
-    for si, seg in enumerate(segs):
-        if si > 0:
-            _, mode, lines = inserts[si - 1]
-            out.extend(_mk_injected(lines, fs.id))
-        if seg.endswith("\n") and si + 1 < len(segs) and inserts[si][1] == "line":
-            seg = seg[:-1]
-        emit_src(seg, cuts[si])
+    _process_body(fs, body, src, b0, applied, out)
     info = _info(fs, src, h0, b1, applied, assumed=False, toks_slice=src[h0:b1])
     return out, info
 
@@ -647,8 +755,11 @@ def self_check(gen_lines, infos):
         a = toks[item.head_start].start
         b = toks[item.end - 1].end
         want = src[a:b]
+        if info.get("slice"):
+            sl = src.split("\n")[info["lines"][0] - 1:info["lines"][1]]
+            want = "\n".join(sl)
         for rw, where, _ in info["rewrites"]:
-            if rw == "ret_name":
+            if rw in ("ret_name", "slice"):
                 continue
             want, _n = _apply_rewrite(rw, want)
         got = "\n".join(by_fn.get(fid, []))
@@ -687,6 +798,8 @@ def canary_levels(template):
             continue
         ht = item.header_tokens()
         name = ht[ht.index("fn") + 1]
+        if getattr(fs, "is_slice", False):
+            name = "__slice__" + name
         body = [t.text for t in toks[item.body_open:item.body_close + 1] if t.kind == "ident"]
         # calls that do not name their target: x.into() is From::from, x.try_into() is TryFrom::try_from, `?` converts with From::from
         if "into" in body or any(t.text == "?" for t in toks[item.body_open:item.body_close + 1]):
